@@ -186,7 +186,7 @@ POWERS = [("1", 1, (1, 1)), ("1.0", 1.0, (1, 1)), ("(2,2)", (2, 2), (1, 1)), ("2
 
 @contract(f"{Q}.__pow__", ["C06", "C07"], name="Quantity.__pow__")
 def _(c):
-    for u in ["m", "k:m s^-1", "m^2"]:
+    for u in ["m", "k:m s^-1", "m^2", "%", "[pi]", "ppth rad^-1"]:   # the last three: dimensionless table units stay units
         for label, p, (pn, pd) in POWERS:
             def pre(bd, u=u, p=p, pn=pn, pd=pd):
                 q = bd.new(Q, bd.real("x"), U.render(T(u)))
@@ -345,3 +345,35 @@ def _(c):
     c.requires("e >= 0")
     c.ensures("all([near(r, x * other) for r, x in zip(elems(result.magnitude.value), xs)]) and all([near(r, e * absv(other)) for r in elems(result.magnitude.error)])", "scaled-with-the-uncertainty")
     c.no_raise()
+
+
+# ---- an operand shown in a composite unit whose dimensions cancel (a number converted with to('m/km')): results are built from it,
+#      the operand itself -- text, value AND its unit list -- stays as it is, so the same operation twice gives the same --------------------
+CANCELLING = [("m/km", 1e-3), ("cm/m", 1e-2), ("s*min-1", 1 / 60)]
+USES = [("__neg__", []), ("__add__", ["k"]), ("__sub__", ["k"]), ("__mul__", ["k"]), ("__eq__", ["other"])]
+
+
+for meth, extra in USES:
+    @contract(f"{Q}.{meth}", ["C07", "C06"], name=f"Quantity.{meth}[operand-shown-in-a-cancelling-unit]")
+    def _(c, meth=meth, extra=extra):
+        c.bound = "a number converted in place to one of the listed composite units whose dimensions cancel"
+        for u, f in CANCELLING:
+            def pre(bd, u=u, f=f):
+                q = bd.new(Q, bd.real("x"))
+                bd.call(bd.getattr(q, "to"), u)
+                k = bd.real("k")
+                args = [q] + [(k if a == "k" else bd.new(Q, k)) for a in extra]
+                return dict(args=args, env=dict(q=q, k=k, f=f, v=bd.getattr(bd.getattr(q, "magnitude"), "value")))
+            c.scenario(u, pre)
+            if meth == "__eq__":
+                c.scenario(u + "[as-right-operand]", (lambda pre: lambda bd: (lambda d: dict(args=d["args"][::-1], env=d["env"]))(pre(bd)))(pre))
+        c.ensures("obs(q) == old(obs(q))", "operand-reports-the-same")
+        if meth == "__neg__":
+            c.ensures("near(result.value(), -v * f)", "base-value-negated")
+        elif meth in ("__add__", "__sub__"):
+            c.ensures(f"near(result.value() , v * f {'+' if meth == '__add__' else '-'} k)", "base-value-of-the-result")
+        elif meth == "__mul__":
+            c.ensures("near(result.value(), v * f * k)", "base-value-of-the-result")
+        elif meth == "__eq__":
+            c.ensures("implies(v * f == k and k != 0, result == True)", "equal-base-values-compare-equal")
+        c.no_raise()
